@@ -331,7 +331,16 @@ def multiscale_rule(ctx):
             res.undecide("forward chunk", "result is not unpacked into two names")
     # (c) flat layout
     ftxt = norm_text(fwd.node)
-    if ".reshape(batch_size, -1)" in ftxt and "torch.cat(all_outputs, dim=-1)" in ftxt.replace("dim=1", "dim=-1"):
+    fpaths = [pp for pp in paths_of(fwd.node) if pp.kind == "return"]
+    flat_ok = False
+    if len(fpaths) == 1 and isinstance(fpaths[0].ret, ast.Tuple) and fpaths[0].ret.elts:
+        fbound = set()
+        for n in ast.walk(fwd.node):
+            if isinstance(n, ast.For):
+                fbound |= {x.id for x in ast.walk(n.target) if isinstance(x, ast.Name)}
+        o = _canon_alpha(_alpha_text(fpaths[0].ret.elts[0], fbound)).replace(" ", "")
+        flat_ok = o in ("torch.cat(__append__([],$A.reshape(inputs.shape[0],-1)),dim=-1)", "torch.cat(__append__([],$A.reshape(inputs.shape[0],-1)),dim=1)", "torch.cat(__append__([],$A.flatten(1)),dim=-1)", "torch.cat(__append__([],$A.flatten(1)),dim=1)", "torch.cat(__append__([],$A.view(inputs.shape[0],-1)),dim=-1)")
+    if flat_ok:
         res.ok("forward: pieces flattened per item in stage order and concatenated on the last axis")
     else:
         res.fail(Finding("MS-SPLIT", fwd.module, fwd.qualname, fwd.node, "forward must flatten every emitted piece per item and concatenate them in stage order on the last axis", construct="flat output layout"))
